@@ -20,7 +20,7 @@ BATCH = 32
 
 
 def jobs(tier, seed, pool):
-    files = inputs.stored_files(tier, seed, PROP)
+    files = inputs.stored_files(tier, seed, PROP) + inputs.extra_stored_files(tier, seed, PROP)
     infos = inputs.describe_all(pool, files, PROP)
     out = []
     for init, info in zip(files, infos):
@@ -30,14 +30,14 @@ def jobs(tier, seed, pool):
         refs = info['refs']
         nref = len(refs)
         cases = []
-        max_single_fields = 400 if tier == 'quick' else 100000
+        max_single_fields = 150 if tier == 'quick' else 100000
         fields = list(range(nref))
         if nref > max_single_fields:
             fields = sorted(rng.sample(fields, max_single_fields))
         for f in fields:
             for k in KINDS:
                 cases.append({'patch': [{'f': f, 'k': k, 'a': rng.below(1 << 20)}]})
-        nmulti = (1500 if tier == 'quick' else 6000)
+        nmulti = (400 if tier == 'quick' else 6000)
         nmulti = min(nmulti, nref * nref * 8)
         for _ in range(nmulti):
             n = 2 if rng.chance(0.7) else 3
